@@ -95,7 +95,7 @@ Definition put (k : key) (v : cell) (c : cells) : cells := (k, v) :: c.
 Record store := { s_species : list (nat * list nat);
                   s_cells : cells }.
 
-Inductive err := EIndexBound | EValue | EType | EAssert | EAttr | EStopIter | EHdf | EOther.
+Inductive err := EIndexBound | EValue | EType | EAssert | EAttr | EStopIter | EHdf | EIndex | EOther.
 Definition res (A : Type) := (A + err)%type.
 
 (* ---- writing one field --------------------------------------------------------------------- *)
@@ -406,7 +406,8 @@ Definition load_traj (fixed : bool) (sc : schema) (order : list nat) (i : nat) (
 Inductive layout :=
   | Single                         (* every field set in one file *)
   | Assoc (a : list nat)           (* CREATE with associated_files=[(path, a)] *)
-  | Mapped (a : list nat).         (* base store first, then create_associated(path, a, fn) *)
+  | Mapped (a : list nat)          (* base store first, then create_associated(path, a, fn) *)
+  | AssocMany (parts : list (list nat)).   (* CREATE with several associated files, one per part *)
 
 Definition all_sets (sc : schema) : list nat := seq 0 (List.length sc).
 Definition minus (l a : list nat) : list nat := filter (fun x => negb (memb x a)) l.
@@ -501,9 +502,11 @@ Definition run_case_merged (fixed : bool) (sc : schema) (ly : layout) (worder ro
    correspondence runs; the merged [store] above is its abstraction (proofs/C03_Files.v). *)
 Record ncfile := { f_sets : list nat;        (* field sets (groups) in the file *)
                    f_species : list nat;     (* the file's species dimension *)
-                   f_cells : cells }.        (* its variables *)
+                   f_cells : cells;          (* its data variables *)
+                   f_len : nat }.            (* length of its (unlimited) trajectory dimension = largest index written
+                                                to ANY variable of the file, the trajectory coordinate included, + 1 *)
 Definition cstore := list ncfile.
-Definition no_file : ncfile := {| f_sets := []; f_species := []; f_cells := [] |}.
+Definition no_file : ncfile := {| f_sets := []; f_species := []; f_cells := []; f_len := 0 |}.
 
 (* self._nc[fs_name]: the file that holds a field set *)
 Fixpoint file_index (fs : nat) (st : cstore) : option nat :=
@@ -520,8 +523,11 @@ Fixpoint update_nth {A} (k : nat) (x : A) (l : list A) : list A :=
   | y :: r, S k' => y :: update_nth k' x r
   end.
 
-Definition set_cells (f : ncfile) (c : cells) : ncfile :=
-  {| f_sets := f_sets f; f_species := f_species f; f_cells := c |}.
+(* _write_data for one field set at index i: the data variables get their new cells, and after every variable
+   the trajectory coordinate of THE SAME FILE is written at i (`nc_file.traj_var[0][index] = index`), which
+   extends that file's trajectory dimension to i + 1 even if every field of the field set was unset *)
+Definition wrote (f : ncfile) (c : cells) (i : nat) : ncfile :=
+  {| f_sets := f_sets f; f_species := f_species f; f_cells := c; f_len := Nat.max (f_len f) (S i) |}.
 
 Fixpoint write_traj_c (fixed : bool) (sc : schema) (order : list nat) (i : nat) (t : traj) (st : cstore)
   : res cstore :=
@@ -534,7 +540,7 @@ Fixpoint write_traj_c (fixed : bool) (sc : schema) (order : list nat) (i : nat) 
           let f := nth k st no_file in
           match write_fields fixed (f_species f) fs i 0 (nth fs sc []) (nth fs t []) (f_cells f) with
           | inr e => inr e
-          | inl c' => write_traj_c fixed sc rest i t (update_nth k (set_cells f c') st)
+          | inl c' => write_traj_c fixed sc rest i t (update_nth k (wrote f c' i) st)
           end
       end
   end.
@@ -564,7 +570,7 @@ Definition load_traj_c (fixed : bool) (sc : schema) (order : list nat) (i : nat)
              end
   end.
 
-Definition new_file (sets sp : list nat) : ncfile := {| f_sets := sets; f_species := sp; f_cells := [] |}.
+Definition new_file (sets sp : list nat) : ncfile := {| f_sets := sets; f_species := sp; f_cells := []; f_len := 0 |}.
 
 (* CREATE: the base file, and the associated file if one was asked for, both with the species of the
    whole first trajectory (store.py:_create); for a store that is mapped later, the base file only *)
@@ -574,6 +580,9 @@ Definition create_files (sc : schema) (ly : layout) (t0 : traj) : cstore :=
   | Assoc a => [new_file (minus (all_sets sc) a) (species_union (all_sets sc) t0);
                 new_file a (species_union (all_sets sc) t0)]
   | Mapped a => [new_file (minus (all_sets sc) a) (species_union (minus (all_sets sc) a) t0)]
+  | AssocMany parts =>
+      new_file (minus (all_sets sc) (List.concat parts)) (species_union (all_sets sc) t0)
+      :: map (fun a => new_file a (species_union (all_sets sc) t0)) parts
   end.
 
 (* create_associated: one more file, with the species of the first mapped result *)
@@ -606,6 +615,58 @@ Fixpoint map_all_c (fixed : bool) (sc : schema) (rorder1 morder : list nat) (i :
       end
   end.
 
+(* Reading with the trajectory dimensions taken into account: `var[index]` beyond the current length of the file's
+   trajectory dimension is an IndexError ("index exceeds dimension bounds") — the case of a record that was never
+   written in THAT file. *)
+Fixpoint read_raw_b (fixed : bool) (sc : schema) (order : list nat) (i : nat) (st : cstore)
+  : res (list (fmeta * res fval)) :=
+  match order with
+  | [] => inl []
+  | fs :: rest =>
+      match file_index fs st with
+      | None => inr EOther
+      | Some k =>
+          let f := nth k st no_file in
+          match read_raw_b fixed sc rest i st with
+          | inr e => inr e
+          | inl l => if Nat.ltb i (f_len f)
+                     then inl (read_fields fixed (f_species f) (f_cells f) fs i 0 (nth fs sc []) ++ l)
+                     else inl (map (fun m => (m, inr EIndex)) (nth fs sc []) ++ l)
+          end
+      end
+  end.
+
+Definition load_traj_b (fixed : bool) (sc : schema) (order : list nat) (i : nat) (st : cstore) : res (list fval) :=
+  match read_raw_b fixed sc order i st with
+  | inr e => inr e
+  | inl l => match scan fixed None l with
+             | inr e => inr e
+             | inl (n, vs) => convert_all n vs
+             end
+  end.
+
+Fixpoint map_all_b (fixed : bool) (sc : schema) (rorder1 morder : list nat) (i : nat) (ts : list traj)
+         (st : cstore) : cstore * option (nat * err) :=
+  match ts with
+  | [] => (st, None)
+  | t :: r =>
+      match load_traj_b fixed sc rorder1 i st with
+      | inr e => (st, Some (i, e))
+      | inl _ =>
+          match write_traj_c fixed sc morder i t st with
+          | inr e => (st, Some (i, e))
+          | inl st' => map_all_b fixed sc rorder1 morder (S i) r st'
+          end
+      end
+  end.
+
+Fixpoint read_all_b (fixed : bool) (sc : schema) (order : list nat) (i n : nat) (st : cstore)
+  : list (res (list fval)) :=
+  match n with
+  | O => []
+  | S n' => load_traj_b fixed sc order i st :: read_all_b fixed sc order (S i) n' st
+  end.
+
 Fixpoint read_all_c (fixed : bool) (sc : schema) (order : list nat) (i n : nat) (st : cstore)
   : list (res (list fval)) :=
   match n with
@@ -613,11 +674,12 @@ Fixpoint read_all_c (fixed : bool) (sc : schema) (order : list nat) (i n : nat) 
   | S n' => load_traj_c fixed sc order i st :: read_all_c fixed sc order (S i) n' st
   end.
 
-(* one whole case of the correspondence, on separate files: create, add every trajectory, close, (map),
+(* the same without looking at the trajectory dimensions (proved equal to [run_case] when every field set that is
+   read was also written, proofs/C03_Files.v): create, add every trajectory, close, (map),
    reopen, read all.  [worder] / [rorder1] / [morder] / [rorder] are the iteration orders of the store's
    (hash-ordered) field-set dictionary in the writing session, in the session that maps over the base
    store, of the mapped field sets, and in the final reading session — observed on the implementation. *)
-Definition run_case (fixed : bool) (sc : schema) (ly : layout) (worder rorder1 morder rorder : list nat)
+Definition run_case_unbounded (fixed : bool) (sc : schema) (ly : layout) (worder rorder1 morder rorder : list nat)
            (ts : list traj) : outcome :=
   match ts with
   | [] => Added []
@@ -639,6 +701,37 @@ Definition run_case (fixed : bool) (sc : schema) (ly : layout) (worder rorder1 m
                          end
                 end
             | _ => Added (read_all_c fixed sc rorder 0 (List.length ts) st)
+            end
+        end
+  end.
+
+
+(* one whole case of the correspondence, on separate files: create, add every trajectory, close, (map),
+   reopen, read all.  [worder] / [rorder1] / [morder] / [rorder] are the iteration orders of the store's
+   (hash-ordered) field-set dictionary in the writing session, in the session that maps over the base
+   store, of the mapped field sets, and in the final reading session — observed on the implementation. *)
+Definition run_case (fixed : bool) (sc : schema) (ly : layout) (worder rorder1 morder rorder : list nat)
+           (ts : list traj) : outcome :=
+  match ts with
+  | [] => Added []
+  | t0 :: _ =>
+      if negb fixed && unset_species_field sc (phase1_sets sc ly) t0 then Refused 1 0 EAssert
+      else
+        match add_all_c fixed sc worder 0 ts (create_files sc ly t0) with
+        | (_, Some (k, e)) => Refused 1 k e
+        | (st, None) =>
+            match ly with
+            | Mapped a =>
+                match load_traj_b fixed sc rorder1 0 st with
+                | inr e => Refused 2 0 e
+                | inl _ =>
+                    if negb fixed && unset_species_field sc a t0 then Refused 2 0 EAttr
+                    else match map_all_b fixed sc rorder1 morder 0 ts (add_mapped_file_c a t0 st) with
+                         | (_, Some (k, e)) => Refused 2 k e
+                         | (st', None) => Added (read_all_b fixed sc rorder 0 (List.length ts) st')
+                         end
+                end
+            | _ => Added (read_all_b fixed sc rorder 0 (List.length ts) st)
             end
         end
   end.
@@ -680,7 +773,9 @@ Record code_facts := {
   cf_modes_dim_from_enum : bool;                     (* ... the thrust-mode dimension is the whole enumeration *)
   cf_create_species_of_first_trajectory : bool;      (* _create: proto.species for the base and every associated file *)
   cf_mapped_species_of_first_result : bool;          (* create_associated: sorted(species of the first mapped result) *)
-  cf_species_skip_unset_fields : bool                (* Container.species / create_associated skip None fields *)
+  cf_species_skip_unset_fields : bool;               (* Container.species / create_associated skip None fields *)
+  cf_coordinate_written_with_every_variable : bool   (* _write_data: nc_file.traj_var[0][index] = index inside the
+                                                        per-variable loop, for the file of the field set being written *)
 }.
 
 Definition facts_of (fixed : bool) : code_facts :=
@@ -702,7 +797,8 @@ Definition facts_of (fixed : bool) : code_facts :=
      cf_modes_dim_from_enum := true;
      cf_create_species_of_first_trajectory := true;
      cf_mapped_species_of_first_result := true;
-     cf_species_skip_unset_fields := fixed |}.
+     cf_species_skip_unset_fields := fixed;
+     cf_coordinate_written_with_every_variable := true |}.
 
 (* the (has_sp, has_tm[, has_point]) coordinates of a shape *)
 Definition has_mode (s : shape) : bool := match s with ShTM | ShTSM => true | _ => false end.
